@@ -1,10 +1,11 @@
 #!/bin/bash
 # mkagent.sh <ID> <n>: creates a scratch worktree for a mutation sub-agent and prints its prompt
-ID="$1"; N="$2"; W=/tmp/agentwt/$ID-$N
+ID="$1"; N="$2"; AVOID="${3:-}"; W=/tmp/agentwt/$ID-$N
 git -C /repo worktree add -q --detach "$W" HEAD || exit 2
-python3 - "$ID" "$W" <<'PY'
+python3 - "$ID" "$W" "$AVOID" <<'PY'
 import json,sys
-pid,w=sys.argv[1:3]
+pid,w,avoid=sys.argv[1:4]
+avoid=('\nAnother engineer has already delivered this change for the same property, so choose something DIFFERENT (another function, another mechanism, another trigger): '+avoid+'\n') if avoid else ''
 p=[json.loads(l) for l in open('/verif/properties.jsonl') if json.loads(l)['id']==pid][0]
 print(f"""You are working in a scratch git worktree of the Go library alibaba/sentinel-golang at {w} . Work ONLY inside that directory; do not read or touch /repo, /verif or any other checkout. The sandbox is offline; every shell call needs: export GOFLAGS=-mod=mod GOPROXY=off GOSUMDB=off GOTOOLCHAIN=local
 
@@ -13,7 +14,7 @@ PROPERTY that the library is supposed to satisfy ({p['title']}):
 It must hold over: {p['quantifier']['text']}
 (Code it lives in: {', '.join(p['anchors']['files'])})
 
-TASK: make ONE small, realistic change to NON-test source files (the kind of bug a maintainer could introduce in a refactor, a micro-optimisation or a 'clean-up': a wrong comparison, a dropped lock or re-check, a reordered store, a stale cache, a skipped branch, a wrong variable, an unguarded corner case ...) that BREAKS this property, while the code still compiles and the existing tests of the packages you touch (and ./api/... ./tests/...) still pass: run `go test -vet=off -count=1 <pkgs>`. The breakage must need something SPECIFIC to manifest: a particular interleaving of goroutines, a fault or clock value at a particular point, a multi-step sequence of operations, an unusual input or configuration, or two cooperating sites that each look fine alone. It must NOT be something that ordinary use exposes at once (e.g. not 'every request is rejected').
+TASK: make ONE small, realistic change to NON-test source files (the kind of bug a maintainer could introduce in a refactor, a micro-optimisation or a 'clean-up': a wrong comparison, a dropped lock or re-check, a reordered store, a stale cache, a skipped branch, a wrong variable, an unguarded corner case ...) that BREAKS this property, while the code still compiles and the existing tests of the packages you touch (and ./api/... ./tests/...) still pass: run `go test -vet=off -count=1 <pkgs>`. The breakage must need something SPECIFIC to manifest: a particular interleaving of goroutines, a fault or clock value at a particular point, a multi-step sequence of operations, an unusual input or configuration, or two cooperating sites that each look fine alone. It must NOT be something that ordinary use exposes at once (e.g. not 'every request is rejected').{avoid}
 
 DELIVER, all inside {w}:
 1. the change itself, left UNCOMMITTED in the working tree (so `git diff` shows it; do not commit anything, do not edit existing *_test.go files). Keep it under ~30 changed lines.
